@@ -119,6 +119,9 @@ def cross_check(prog: Program, an: Analysis) -> dict:
     for mod, mi in prog.modules.items():
         if mod in ('bubus/logging.py', 'bubus/__init__.py'):
             continue
+        if any(l.startswith(mod + ':') and 'folded' in l for l in getattr(prog, 'fold_log', [])):
+            res['skipped'].append(f'{mod}: helpers were folded into callers, line-based comparison with the compiled source skipped')
+            continue
         try:
             top = compile(mi.source, os.path.join(prog.root, mod), 'exec', dont_inherit=True)
         except SyntaxError as e:  # pragma: no cover
